@@ -763,7 +763,6 @@ fn variants(sys: &Sys, t: f64, x: f64, s: f64, ntot: f64, pb: f64, pd: f64, bub:
         let dt = rng.range(0.5, 3.0) * if rng.below(2) == 0 { 1.0 } else { -1.0 };
         let t2 = t + dt;
         let p2 = p0 * (1.0 + rng.range(-0.02, 0.02));
-        let temp2 = Temperature::from_reduced(t2);
         // is (t2, p) / (t2, p2) still strictly inside the envelope?  (then the flash has to be found)
         let inside = |tt: f64, pp: f64| -> bool {
             let b = run_guard(|| Vle::bubble_point(&sys.eos, Temperature::from_reduced(tt), &spec, Some(Pressure::from_reduced(pb)), Some(&y_b), Default::default()));
@@ -1239,29 +1238,56 @@ fn het_failure(c: &HetCase, kind: &str, what: String) -> Value {
 /// the three-phase pressure, composition guess = the other liquid.  Specified phase = the water-rich or the hydrocarbon-rich
 /// liquid, in bubble_point (specified phase must come back as liquid()) and in dew_point (as vapor()), T- and p-specified.
 /// Deterministic in (other, t): `--lle-point "other|T"` replays it.
-fn lle_points(eos: &Arc<Eos>, other: &str, t: f64, counts: &mut [usize; 2]) -> Vec<Value> {
+fn lle_points(eos: &Arc<Eos>, other: &str, t: f64, counts: &mut [usize; 2], log: &mut Vec<Value>) -> Vec<Value> {
     let mut failures = Vec::new();
     let temp = Temperature::from_reduced(t);
     let Ok(h) = run_guard(|| Vlle::heteroazeotrope(eos, temp, (0.9999, 0.0001), None, SolverOptions::default(), Default::default())) else { return failures };
     let p_het = h.vapor().pressure(Contributions::Total).to_reduced();
-    let (xw, xo) = (h.liquid1().molefracs.clone(), h.liquid2().molefracs.clone());
     let mut worst = Worst { min_dist: f64::INFINITY, ..Default::default() };
     let mut rng = Rng(t.to_bits() ^ 0x11E);
+    // the two liquids at a pressure well above the three-phase pressure (flash of an equimolar feed)
+    let p_lle = p_het * rng.range(3.0, 30.0);
+    let feed = Moles::from_reduced(arr1(&[0.5, 0.5]));
+    let ll = match run_guard(|| Vle::tp_flash(eos, temp, Pressure::from_reduced(p_lle), &feed, None, Default::default(), None)) {
+        Ok(v) => v,
+        Err(e) => {
+            log.push(json!({"case": "liquid-liquid flash", "p": p_lle, "error": e}));
+            return failures;
+        }
+    };
+    log.push(json!({"case": "liquid-liquid flash", "p": p_lle, "which": "", "vapor()": phase_json(ll.vapor()), "liquid()": phase_json(ll.liquid())}));
+    let (xw, xo) = if ll.liquid().molefracs[0] > ll.vapor().molefracs[0] {
+        (ll.liquid().molefracs.clone(), ll.vapor().molefracs.clone())
+    } else {
+        (ll.vapor().molefracs.clone(), ll.liquid().molefracs.clone())
+    };
+    // both phases of that flash have to be liquids (compressibility factor below 0.5)
+    let rho_ig = p_lle / t;
+    if !(ll.vapor().density.to_reduced() > 2.0 * rho_ig && ll.liquid().density.to_reduced() > 2.0 * rho_ig) {
+        return failures;
+    }
     for (spec, guess, which) in [(&xo, &xw, "hydrocarbon-rich liquid specified"), (&xw, &xo, "water-rich liquid specified")] {
         for bubble in [true, false] {
             for tspec in [true, false] {
-                let pfac = rng.range(1.5, 6.0);
-                let p_lle = p_het * pfac;
+                let pfac = [1.0, 2.0, 10.0][rng.below(3)];
+                let p_init = p_lle * pfac;
                 let kind = format!("lle_{}_{}", if bubble { "bubble" } else { "dew" }, if tspec { "T" } else { "p" });
                 counts[0] += 1;
                 let r = run_guard(|| match (bubble, tspec) {
-                    (true, true) => Vle::bubble_point(eos, temp, spec, Some(Pressure::from_reduced(p_lle)), Some(guess), Default::default()),
-                    (false, true) => Vle::dew_point(eos, temp, spec, Some(Pressure::from_reduced(p_lle)), Some(guess), Default::default()),
+                    (true, true) => Vle::bubble_point(eos, temp, spec, Some(Pressure::from_reduced(p_init)), Some(guess), Default::default()),
+                    (false, true) => Vle::dew_point(eos, temp, spec, Some(Pressure::from_reduced(p_init)), Some(guess), Default::default()),
                     (true, false) => Vle::bubble_point(eos, Pressure::from_reduced(p_lle), spec, Some(Temperature::from_reduced(t + 2.0)), Some(guess), Default::default()),
                     (false, false) => Vle::dew_point(eos, Pressure::from_reduced(p_lle), spec, Some(Temperature::from_reduced(t + 2.0)), Some(guess), Default::default()),
                 });
-                let Ok(vle) = r else { continue };
+                let vle = match r {
+                    Ok(v) => v,
+                    Err(e) => {
+                        log.push(json!({"case": kind, "which": which, "p": p_lle, "error": e}));
+                        continue;
+                    }
+                };
                 counts[1] += 1;
+                log.push(json!({"case": kind, "which": which, "p": p_lle, "vapor()": phase_json(vle.vapor()), "liquid()": phase_json(vle.liquid())}));
                 let tol = Tol { strict_roles: false, ..Tol::bubble_dew(1e-10) };
                 let mut bad = common_checks_tol(&vle, if tspec { Some(t) } else { None }, &mut worst, tol);
                 // bubble point: the specified phase is liquid(); dew point: the specified phase is vapor()
@@ -1279,7 +1305,7 @@ fn lle_points(eos: &Arc<Eos>, other: &str, t: f64, counts: &mut [usize; 2]) -> V
                     }
                 }
                 if !bad.is_empty() {
-                    bad.push(format!("[{which}, p_init or p_spec = {p_lle} = {pfac:.3} x three-phase pressure; returned vapor(): {}; liquid(): {}]", phase_json(vle.vapor()), phase_json(vle.liquid())));
+                    bad.push(format!("[{which}, liquid-liquid flash pressure / p_spec = {p_lle}, p_init = {pfac} x that; returned vapor(): {}; liquid(): {}]", phase_json(vle.vapor()), phase_json(vle.liquid())));
                     failures.push(json!({"key": {"pair": ["water_np", other], "kind": kind, "T": t, "x": spec[0]}, "what": bad.join("; "),
                         "detail": {"which": which, "p": p_lle}, "lle_point": format!("{other}|{t:?}"), "s": 0.5, "ntot": 0.0, "Tc": [0.0, 0.0]}));
                 }
@@ -1332,7 +1358,7 @@ fn hetero_search(out: &str, full: bool, seed: u64) -> (Vec<Value>, Value, Vec<(S
                     }
                 }
             }
-            failures.extend(lle_points(&eos, other, t, &mut lle_counts));
+            failures.extend(lle_points(&eos, other, t, &mut lle_counts, &mut Vec::new()));
             let Some(b) = base else { continue };
             let p_het = b.vapor().pressure(Contributions::Total).to_reduced();
             let (xl1, xl2) = (b.liquid1().molefracs[0], b.liquid2().molefracs[0]);
@@ -1475,8 +1501,9 @@ fn main() {
         let f: Vec<&str> = lp.split('|').collect();
         let eos = hetero_eos(f[0]).unwrap();
         let mut c = [0usize; 2];
-        let failures = lle_points(&eos, f[0], f[1].parse().unwrap(), &mut c);
-        cli.write_impl(&json!({"property": "C05", "lle_point": lp, "attempted_found": c.to_vec(), "failures": failures}));
+        let mut log = Vec::new();
+        let failures = lle_points(&eos, f[0], f[1].parse().unwrap(), &mut c, &mut log);
+        cli.write_impl(&json!({"property": "C05", "lle_point": lp, "attempted_found": c.to_vec(), "failures": failures, "results": log}));
         return;
     }
     if let Some(hp) = cli.opt("--hetero-point") {
